@@ -391,11 +391,15 @@ def jenc(n):
     raise TypeError(n)
 
 
+NOJSON = object()
+
+
 def json_render(x):
+    """the JSON document json.dumps makes of x, NOJSON when it refuses"""
     try:
         return jdoc(json.dumps(x))
     except (TypeError, ValueError):
-        return None
+        return NOJSON
 
 
 def ident(x):
@@ -473,7 +477,8 @@ class Enc:
                 if isinstance(k, float):
                     self.fkeys[fbits(float(k))] = float.__repr__(k)
                 items.append([self.enc(k, depth + 1), self.enc(v, depth + 1)])
-        return ["o", str(t), oid, json_render(x), items]
+        js = json_render(x)
+        return ["o", str(t), oid, None if js is NOJSON else js, items]
 
 
 def tables_for(values, enc: Enc):
@@ -481,7 +486,7 @@ def tables_for(values, enc: Enc):
     strs, seen = [], set()
     for v in values:
         for k, item in enc.items_of(v):
-            for obj, need in ((k, type(k) is not str), (item, json_render(item) is None)):
+            for obj, need in ((k, type(k) is not str), (item, json_render(item) is NOJSON)):
                 if need:
                     e = enc.enc(obj, 1)
                     key = json.dumps(e)
@@ -535,14 +540,14 @@ def classify_unpickle(s):
 def run_codec(ctx, case):
     """runs the real codec; returns impl observations + the model op"""
     import cloudpickle
-    from stable_baselines3.common.save_util import data_to_json, is_json_native, is_json_serializable, json_to_data
+    from stable_baselines3.common.save_util import data_to_json, json_to_data
 
     d = {nm: build(vd) for nm, vd in case["attrs"]}
     custom = {nm: build(vd) for nm, vd in case["custom"]} if case["custom"] else None
-    return codec_on(d, custom, data_to_json, json_to_data, is_json_native, is_json_serializable, cloudpickle)
+    return codec_on(d, custom, data_to_json, json_to_data, cloudpickle)
 
 
-def codec_on(d, custom, data_to_json, json_to_data, is_json_native, is_json_serializable, cloudpickle, counter_ids=False):
+def codec_on(d, custom, data_to_json, json_to_data, cloudpickle, counter_ids=False):
     enc = Enc(counter_ids)
     names = list(d.keys())
     attrs_e = [[nm, enc.enc(d[nm])] for nm in names]
@@ -594,7 +599,11 @@ def codec_on(d, custom, data_to_json, json_to_data, is_json_native, is_json_seri
             r["loaded"] = [[k, e2.enc(v)] for k, v in loaded.items()] if not counter_ids else None
         except Exception as e:  # noqa
             r["load_exc"] = f"{type(e).__name__}: {e}"
-    r["stored"] = [[nm, "json" if (is_json_serializable(d[nm]) and is_json_native(d[nm])) else "pickled"] for nm in names]
+    # which way each attribute went, read off the document: "json" iff the entry is json.dumps of the value itself
+    entries = dict((k, v) for k, v in r["doc"][1]) if (r["doc"] and r["doc"][0] == "o") else {}
+    raw = dict((k, v) for k, v in jdoc(text)[1]) if text is not None else {}
+    r["stored"] = [[nm, "json" if (nm in raw and json_render(d[nm]) is not NOJSON and json_render(d[nm]) == raw[nm]) else "pickled"]
+                   for nm in names] if text is not None else None
     strs = tables_for(list(d.values()), enc)
     custom_e = [[k, enc.enc(v)] for k, v in custom.items()] if custom else []
     r["op"] = {"op": "codec", "attrs": attrs_e, "custom": custom_e, "strs": strs,
@@ -656,7 +665,7 @@ def cmp_codec(ctx, case, r, mo, stream_prefix="codec"):
     if mo["json"] != impl_doc:
         rep.disagree(stream_prefix + "_doc", case, {"doc": impl_doc, "exc": r["save_exc"]}, {"doc": mo["json"]})
         return
-    if mo["stored"] != r["stored"]:
+    if r["stored"] is not None and mo["stored"] != r["stored"]:
         rep.disagree(stream_prefix + "_doc", case, r["stored"], mo["stored"], "branch json/pickled")
         return
     if r["loaded"] is not None or r["load_exc"] or r["save_exc"]:
@@ -684,12 +693,14 @@ def has_nonfinite_float_key(x):
 
 
 def run_native(ctx, case):
-    from stable_baselines3.common.save_util import is_json_native, is_json_serializable
+    from stable_baselines3.common import save_util
 
+    is_json_native = getattr(save_util, "is_json_native", None)  # absent: only the json layer is compared
     v = build(case["v"])
     enc = Enc()
     e = enc.enc(v)
-    r = {"v": v, "native": bool(is_json_native(v)), "serializable": bool(is_json_serializable(v)), "dumps": None, "loads": None,
+    r = {"v": v, "native": bool(is_json_native(v)) if is_json_native else None,
+         "serializable": bool(save_util.is_json_serializable(v)), "dumps": None, "loads": None,
          "dumped": False}
     try:
         text = json.dumps(v)
@@ -714,7 +725,7 @@ def check_native(ctx, case, r, mo):
     if mo is None:
         return
     impl = {"native": r["native"], "serializable": r["serializable"], "dumps": r["dumps"], "loads": r["loads"], "wf": True}
-    if "error" in mo or any(mo.get(k) != impl[k] for k in impl):
+    if "error" in mo or any(mo.get(k) != impl[k] for k in impl if impl[k] is not None or k in ("dumps", "loads")):
         rep.disagree("native", case, impl, mo)
     else:
         rep.agree()
@@ -735,7 +746,7 @@ def gen_cases(ctx):
 
 
 def nontrivial_codec(r):
-    return any(b == "pickled" for _, b in r["stored"])
+    return any(b == "pickled" for _, b in (r["stored"] or []))
 
 
 def check_cases(ctx, cases):
@@ -750,7 +761,7 @@ def check_cases(ctx, cases):
                 rep.case(case, None)
                 continue
             rep.case(case, case if nontrivial_codec(r) else None)
-            for _, b in r["stored"]:
+            for _, b in r["stored"] or []:
                 rep.count(f"codec_attr:{b}")
             if case["custom"]:
                 rep.count("codec:custom_objects")
@@ -768,6 +779,8 @@ def check_cases(ctx, cases):
                 rep.count("native:skipped_nonfinite_float_key")
                 continue
             rep.count("native:" + ("native" if r["native"] else "serializable" if r["serializable"] else "typeerror"))
+            if r["native"] is None:
+                rep.count("native:is_json_native_absent")
             plan.append((case, r, len(ops), 1))
             ops.append(r["op"])
         else:
@@ -1206,6 +1219,13 @@ def oracle_whole(ctx, case, r):
     ar = r["ar"]
     torch_names = set(r["partition_impl"]["sd"]) | set(r["partition_impl"]["tv"])
     tops = {n.split(".")[0] for n in torch_names}
+    # the oracle's own list of what carries learned state (independent of the class's declarations)
+    for n in ORACLE_TORCH[cfg["algo"]]:
+        try:
+            if rgetattr(model, n) is not None:
+                torch_names.add(n)
+        except AttributeError:
+            pass
     for name in orig:
         in_data = name in ar["data_keys"]
         named = (name in excl or name in INFRA or name in ALIASES) and name not in incl
@@ -1329,6 +1349,11 @@ def oracle_whole(ctx, case, r):
 
 
 ALIASES = {"actor", "critic", "critic_target", "actor_target", "q_net", "q_net_target"}
+ORACLE_TORCH = {
+    "a2c": ["policy", "policy.optimizer"], "ppo": ["policy", "policy.optimizer"], "dqn": ["policy", "policy.optimizer"],
+    "sac": ["policy", "actor.optimizer", "critic.optimizer", "ent_coef_optimizer", "log_ent_coef", "ent_coef_tensor"],
+    "td3": ["policy", "actor.optimizer", "critic.optimizer"], "ddpg": ["policy", "actor.optimizer", "critic.optimizer"],
+}
 
 
 def cmp_whole(ctx, case, r, outs):
@@ -1337,13 +1362,13 @@ def cmp_whole(ctx, case, r, outs):
         return
     mp, ml = outs[0], outs[1]
     pi = r["partition_impl"]
-    impl_p = {"data": pi["data"], "params": sorted(pi["params"]), "vars": sorted(pi["vars"]), "excluded": pi["excluded"],
-              "sd": pi["sd"], "tv": pi["tv"]}
+    impl_p = {"data": pi["data"], "params": sorted(pi["params"]), "vars": sorted(pi["vars"]), "excluded": sorted(pi["excluded"]),
+              "sd": sorted(pi["sd"]), "tv": sorted(pi["tv"])}
     if "error" in mp:
         rep.disagree("partition", case, impl_p, mp)
     else:
-        mod_p = {"data": mp["data"], "params": sorted(mp["params"]), "vars": sorted(mp["vars"]), "excluded": mp["excluded"],
-                 "sd": mp["params"], "tv": mp["vars"]}
+        mod_p = {"data": mp["data"], "params": sorted(mp["params"]), "vars": sorted(mp["vars"]), "excluded": sorted(mp["excluded"]),
+                 "sd": sorted(mp["params"]), "tv": sorted(mp["vars"])}
         if mod_p != impl_p:
             rep.disagree("partition", case, impl_p, mod_p)
         else:
@@ -1385,7 +1410,7 @@ def gen_model_cases(ctx):
     rng = ctx.rng
     cases = []
     algos = ["a2c", "ppo", "dqn", "sac", "td3", "ddpg"]
-    n = ctx.budget(72, 720)
+    n = ctx.budget(120, 1200)
     start = rng.randint(0, 5)
     for i in range(n):
         cases.append(gen_whole(rng, ctx.widen, algos[(start + i) % 6]))
@@ -1557,13 +1582,13 @@ def cmp_partition(ctx, case, r, outs):
     if mp is None:
         return
     ar = r["ar"]
-    impl = {"data": ar["data_keys"], "params": sorted(ar["params"]), "vars": sorted(ar["vars"] or []), "excluded": r["excluded"],
-            "sd": r["sd"], "tv": r["tv"]}
+    impl = {"data": ar["data_keys"], "params": sorted(ar["params"]), "vars": sorted(ar["vars"] or []), "excluded": sorted(r["excluded"]),
+            "sd": sorted(r["sd"]), "tv": sorted(r["tv"])}
     if "error" in mp:
         rep.disagree("partition", case, impl, mp)
         return
-    mod = {"data": mp["data"], "params": sorted(mp["params"]), "vars": sorted(mp["vars"]), "excluded": mp["excluded"],
-           "sd": mp["params"], "tv": mp["vars"]}
+    mod = {"data": mp["data"], "params": sorted(mp["params"]), "vars": sorted(mp["vars"]), "excluded": sorted(mp["excluded"]),
+           "sd": sorted(mp["params"]), "tv": sorted(mp["vars"])}
     if mod != impl:
         rep.disagree("partition", case, impl, mod)
     else:
